@@ -122,6 +122,9 @@ func GenInst(t *rapid.T, o GenOpts, kind string, allowFire bool) Inst {
 		if in.FbKind == "func" && o.CancelOneIn > 0 {
 			in.FbCancel = rapid.IntRange(1, o.CancelOneIn).Draw(t, "fbCancel") == 1
 		}
+		if o.CancelOneIn > 0 && !in.FbCancel {
+			in.FbCancelInListener = rapid.IntRange(1, o.CancelOneIn).Draw(t, "fbCancelInListener") == 1
+		}
 		switch in.FbKind {
 		case "result":
 			in.FbErr = ""
@@ -205,6 +208,7 @@ func GenScenario(t *rapid.T, o GenOpts) Scenario {
 		usedFire = true
 		for i := range sc.Pool {
 			sc.Pool[i].FbCancel = false // one cancellation source per execution: the timeout
+			sc.Pool[i].FbCancelInListener = false
 			sc.Pool[i].CancelInScheduled = false
 		}
 		sc.Pool = append(sc.Pool, Inst{Kind: "timeout", Fire: true})
@@ -227,7 +231,7 @@ func GenScenario(t *rapid.T, o GenOpts) Scenario {
 	hasHedge := hasKind("hedge")
 	stackCancels := func() bool {
 		for _, p := range sc.Stack {
-			if sc.Pool[p].FbCancel || sc.Pool[p].CancelInScheduled {
+			if sc.Pool[p].FbCancel || sc.Pool[p].FbCancelInListener || sc.Pool[p].CancelInScheduled {
 				return true
 			}
 		}
@@ -239,6 +243,7 @@ func GenScenario(t *rapid.T, o GenOpts) Scenario {
 		// with a hedge gets no cancellation source (and no always-fires timeout around the hedge, below).
 		for i := range sc.Pool {
 			sc.Pool[i].FbCancel = false
+			sc.Pool[i].FbCancelInListener = false
 			sc.Pool[i].CancelInScheduled = false
 		}
 	}
@@ -275,7 +280,7 @@ func GenScenario(t *rapid.T, o GenOpts) Scenario {
 				continue
 			}
 			for _, name := range ListenerNames[sc.Pool[i].Kind] {
-				if name == "OnRetryScheduled" && sc.Pool[i].CancelInScheduled {
+				if (name == "OnRetryScheduled" && sc.Pool[i].CancelInScheduled) || (name == "OnFailure" && sc.Pool[i].FbCancelInListener) {
 					continue // that listener is the scenario's cancellation source
 				}
 				if rapid.Bool().Draw(t, "mute") {
